@@ -27,6 +27,12 @@ def jobs(tier):
             js.append({'name': '%s 2 lines first=%s, one I/O fault' % (mode, f), 'harness': (H, 'h_paths'),
                        'params': {'nlines': 2, 'menu_name': 'small', 'mode': mode, 'fixed': [f, 'cont prefix'] if f != 'include f' else [f],
                                   'faults': 1, 'pre_out_len': 2 if mode in ('Verify', 'Clean') else None}, 'split': 4})
+    # whole tree: real coordinator + real preprocess, look-alike decoys (.txtpp, .txtpp.cfg, txtpp, x.txtpp.b.c), escaped directive text
+    for mode, second in (('Build', None), ('InMemoryBuild', None), ('Build', 'Clean'), ('Build', 'Verify'), ('Clean', None)):
+        for inputs in (['.'], ['a.txt', 'b', 'sub']):
+            js.append({'name': 'tree %s%s inputs=%s' % (mode, '->' + second if second else '', ','.join(inputs)), 'harness': (H, 'h_tree'),
+                       'params': {'mode': mode, 'inputs': inputs, 'recursive': True, 'second_mode': second, 'with_bad_temp': inputs == ['.']},
+                       'max_steps': 6_000_000})
     return js
 
 
@@ -35,11 +41,13 @@ BOUNDS = {'quick': 'all four modes x 1-2 line sources over the small menu (succe
           'thorough': 'all 2-line sources in all four modes'}
 ASSUMPTIONS = ['temp targets resolve inside the project (D7); the claim is "no mutating std::fs call on any other path", which implies unchanged '
                'bytes and mtimes under the OS contract', 'directory scanning / input resolution is C11']
-COVERS_REQUIRED = ['paths_Build_ok', 'paths_Build_err', 'paths_Verify_err', 'paths_Clean_ok', 'paths_InMemoryBuild_ok']
+COVERS_REQUIRED = ['tree_Build_ok', 'tree_Clean_ok', 'paths_Build_ok', 'paths_Build_err', 'paths_Verify_err', 'paths_Clean_ok', 'paths_InMemoryBuild_ok']
 
 
 def replay(native, v):
     d = v['data']
+    if d.get('op') == 'tree':
+        return replay_tree(v)
     model = d['model']
     import os, hashlib
     mode = d.get('mode', 'Build')
